@@ -48,6 +48,7 @@ type SrvWorld struct {
 	finalTries int
 	lossFree   bool
 	issuedAt   map[int]int64 // op id -> instant it was issued
+	wedgeReported bool
 	authMu     sync.Mutex
 	users      map[string]string // the operator's user table as of now
 }
